@@ -23,6 +23,49 @@ func init() {
 		upsrv  = "server/upstream/server.go"
 		upmgr  = "server/upstream/manager.go"
 	)
+	const (
+		agtcp = "agent/tcpproxy/server.go"
+		jwtv  = "pkg/auth/jwtverifier.go"
+		cnode = "server/cluster/node.go"
+		upup  = "server/upstream/upstream.go"
+		clup  = "client/upstream.go"
+		sggo  = "server/gossip/gossip.go"
+	)
+	// round 4
+	add("C03",
+		mutant{Name: "digest sorted by version before it is truncated", File: gstate, Old: "\t\t\tLeft:    state.Left,\n\t\t})\n\t}\n\treturn digest\n}", New: "\t\t\tLeft:    state.Left,\n\t\t})\n\t}\n\tsort.Slice(digest, func(i, j int) bool { return digest[i].Version < digest[j].Version })\n\treturn digest\n}", Rule: "C03.R9"},
+	)
+	add("C04",
+		mutant{Name: "syncer never attached to the gossiper", File: sggo, Old: "\tsyncer.Sync(gossiper)\n", New: "", Rule: "C04.R12"},
+	)
+	add("C07",
+		mutant{Name: "agent resets the service connection on close (SO_LINGER 0)", File: agtcp, Old: "\tdefer upstream.Close()\n\n\ts.forward(c, upstream)", New: "\tdefer upstream.Close()\n\tif tc, ok := upstream.(*net.TCPConn); ok {\n\t\t_ = tc.SetLinger(0)\n\t}\n\n\ts.forward(c, upstream)", Rule: "C07.R4"},
+		mutant{Name: "agent accepts the stream but never splices it", File: agtcp, Old: "\ts.forward(c, upstream)\n", New: "\t_ = upstream\n", Rule: "C07.R7"},
+	)
+	add("C08",
+		mutant{Name: "node dial through tls.Client without a server name", File: upup, Old: "\t\treturn tls.Dial(\"tcp\", u.node.ProxyAddr, u.tlsConfig)", New: "\t\tconn, err := net.Dial(\"tcp\", u.node.ProxyAddr)\n\t\tif err != nil {\n\t\t\treturn nil, err\n\t\t}\n\t\treturn tls.Client(conn, u.tlsConfig), nil", Rule: "C08.R6"},
+	)
+	add("C09",
+		mutant{Name: "clock-skew leeway also accepts expired tokens", File: jwtv, Old: "\t\tjwt.WithValidMethods(v.methods),\n\t}", New: "\t\tjwt.WithValidMethods(v.methods),\n\t\tjwt.WithLeeway(30 * time.Second),\n\t}", Rule: "C09.R3"},
+	)
+	add("C11",
+		mutant{Name: "datagram digests answered with the full-digest delta", File: glist, Old: "\tdelta := l.state.Delta(digest, false)\n", New: "\tdelta := l.state.Delta(digest, true)\n", Rule: "C11.R11"},
+	)
+	add("C12",
+		mutant{Name: "idle windows swept on report", File: gfd, Old: "\twindow, ok := d.windows[nodeID]\n\tif !ok {\n\t\twindow = newArrivalWindow(d.bootstrapInterval, d.sampleSize)\n\t\td.windows[nodeID] = window\n\t}\n\twindow.Add(timestamp)", New: "\tfor id, w := range d.windows {\n\t\tif id != nodeID && timestamp.Sub(w.lastTimestamp) > d.bootstrapInterval*time.Duration(d.sampleSize) {\n\t\t\tdelete(d.windows, id)\n\t\t}\n\t}\n\twindow, ok := d.windows[nodeID]\n\tif !ok {\n\t\twindow = newArrivalWindow(d.bootstrapInterval, d.sampleSize)\n\t\td.windows[nodeID] = window\n\t}\n\twindow.Add(timestamp)", Rule: "C12.R5"},
+	)
+	add("C14",
+		mutant{Name: "zero-copy decoding of datagrams", File: gprot, Old: "func newDecoder(reader io.Reader) *decoder {\n\tvar handle codec.MsgpackHandle\n", New: "func newDecoder(reader io.Reader) *decoder {\n\tvar handle codec.MsgpackHandle\n\thandle.ZeroCopy = true\n", Rule: "C14.R2"},
+	)
+	add("C15",
+		mutant{Name: "client-chosen endpoint id used as a metrics label", File: upmgr, Old: "\t\tm.metrics.UpstreamRequestsTotal.Inc()\n", New: "\t\tm.metrics.RemoteRequestsTotal.With(prometheus.Labels{\"node_id\": endpointID}).Inc()\n", Rule: "C15.R4"},
+	)
+	add("C18",
+		mutant{Name: "connect loop gives up on retryable errors", File: clup, Old: "\t\tif !errors.As(err, &retryableError) {", New: "\t\tif errors.As(err, &retryableError) {", Rule: "C18.R8"},
+	)
+	add("C20",
+		mutant{Name: "Node.Copy shares the live endpoint map", File: cnode, Old: "\treturn &Node{\n\t\tID:        n.ID,\n\t\tStatus:    n.Status,\n\t\tProxyAddr: n.ProxyAddr,\n\t\tAdminAddr: n.AdminAddr,\n\t\tEndpoints: endpoints,\n\t}", New: "\t_ = endpoints\n\tcp := *n\n\treturn &cp", Rule: "C20.L3"},
+	)
 	add("C01",
 		mutant{Name: "TCP route recognises a remote node and returns without forwarding", File: tcpp, Old: "\t\tp.httpProxy.ServeHTTPWithUpstream(w, r, endpointID, u)\n", New: "", Rule: "C01.R7"},
 	)
